@@ -76,18 +76,19 @@ type meta struct {
 }
 
 type workerOut struct {
-	Property   string            `json:"property"`
-	Seed       uint64            `json:"seed"`
-	Worker     int               `json:"worker"`
-	Stats      stats             `json:"stats"`
-	Violations []foundViol       `json:"violations"`
-	Samples    []json.RawMessage `json:"samples"`
-	Hashes     []string          `json:"hashes"`
-	HashFile   string            `json:"hash_file"`
-	WallS      float64           `json:"wall_s"`
-	Leaked     int               `json:"leaked_bubbles"`
-	Error      string            `json:"error"`
-	Meta       *meta             `json:"meta"`
+	Property     string            `json:"property"`
+	Seed         uint64            `json:"seed"`
+	Worker       int               `json:"worker"`
+	Stats        stats             `json:"stats"`
+	Violations   []foundViol       `json:"violations"`
+	Samples      []json.RawMessage `json:"samples"`
+	Hashes       []string          `json:"hashes"`
+	HashFile     string            `json:"hash_file"`
+	WallS        float64           `json:"wall_s"`
+	Leaked       int               `json:"leaked_bubbles"`
+	StoppedEarly string            `json:"stopped_early,omitempty"`
+	Error        string            `json:"error"`
+	Meta         *meta             `json:"meta"`
 }
 
 type finding struct {
@@ -498,6 +499,7 @@ func runCheck(id, tier string, seed uint64, workers, runs, ms int, replay, work 
 	var samples []json.RawMessage
 	var viols []foundViol
 	leakedBubbles := 0
+	var stoppedEarly []string
 	var m *meta
 	for _, o := range outs {
 		if o.Error != "" {
@@ -522,6 +524,9 @@ func runCheck(id, tier string, seed uint64, workers, runs, ms int, replay, work 
 			tot.Faults[k] += v
 		}
 		leakedBubbles += o.Leaked
+		if o.StoppedEarly != "" {
+			stoppedEarly = append(stoppedEarly, fmt.Sprintf("worker %d stopped %s", o.Worker, o.StoppedEarly))
+		}
 		if len(samples) < 4 {
 			for _, s := range o.Samples {
 				if len(samples) < 4 {
@@ -691,11 +696,21 @@ func runCheck(id, tier string, seed uint64, workers, runs, ms int, replay, work 
 		unknown = stable
 	}
 	if len(unknown) > 0 {
+		for _, m := range stoppedEarly {
+			fmt.Printf("  note: %s\n", m)
+		}
 		for _, a := range unknown {
 			fmt.Printf("  violation class=%s key=%s runs=%d stable_replay=%v\n    %s\n", a.v.Class, a.v.Key, a.count, a.v.Stable, a.v.Msg)
 			fmt.Printf("VIOLATION property=%s replay=%s\n", id, a.v.Replay)
 		}
 		return 1
+	}
+	if len(stoppedEarly) > 0 {
+		for _, m := range stoppedEarly {
+			fmt.Fprintf(os.Stderr, "check: %s\n", m)
+		}
+		fmt.Fprintf(os.Stderr, "check: the exploration budget was not completed and no violation was found: refusing to report success\n")
+		return 2
 	}
 	if len(distinct) < 2 {
 		fmt.Fprintf(os.Stderr, "check: fewer than 2 distinct non-trivial runs — the workload did not reach the property; refusing to report success\n")
